@@ -4,6 +4,7 @@ package libtime
 
 import (
 	"context"
+	"fmt"
 	"time"
 
 	"github.com/luthersystems/elps/lisp"
@@ -147,7 +148,7 @@ func BuiltinParseRFC3339(env *lisp.LEnv, args *lisp.LVal) *lisp.LVal {
 	if stamp.Type != lisp.LString {
 		return env.Errorf("argument is not a string: %v", stamp.Type)
 	}
-	t, err := time.Parse(time.RFC3339, stamp.Str)
+	t, err := parseRFC3339Strict(time.RFC3339, stamp.Str)
 	if err != nil {
 		return env.Error(err)
 	}
@@ -159,11 +160,44 @@ func BuiltinParseRFC3339Nano(env *lisp.LEnv, args *lisp.LVal) *lisp.LVal {
 	if stamp.Type != lisp.LString {
 		return env.Errorf("argument is not a string: %v", stamp.Type)
 	}
-	t, err := time.Parse(time.RFC3339Nano, stamp.Str)
+	t, err := parseRFC3339Strict(time.RFC3339Nano, stamp.Str)
 	if err != nil {
 		return env.Error(err)
 	}
 	return Time(t)
+}
+
+// parseRFC3339Strict parses s as an RFC 3339 date-time.  time.Parse with the
+// RFC3339 layouts is lenient in four ways the RFC is not (go.dev/issue/54580:
+// a one-digit hour, ',' as the fraction separator, offset hour 24, offset
+// minute 60); those are rejected here with the checks the Go authors wrote for
+// Time.UnmarshalText.  RFC 3339 section 5.6 allows "t" and "z" in lower case,
+// which Go does not, so they are normalised first.
+func parseRFC3339Strict(layout, s string) (time.Time, error) {
+	b := []byte(s)
+	if len(b) > 10 && b[10] == 't' {
+		b[10] = 'T'
+	}
+	if n := len(b); n > 0 && b[n-1] == 'z' {
+		b[n-1] = 'Z'
+	}
+	t, err := time.Parse(layout, string(b))
+	if err != nil {
+		return t, err
+	}
+	num2 := func(b []byte) byte { return 10*(b[0]-'0') + (b[1] - '0') }
+	switch {
+	case b[len("2006-01-02T")+1] == ':':
+		return time.Time{}, fmt.Errorf("parsing time %q: hour must have two digits", s)
+	case b[len("2006-01-02T15:04:05")] == ',':
+		return time.Time{}, fmt.Errorf("parsing time %q: sub-second separator must be a period", s)
+	case b[len(b)-1] != 'Z':
+		tz := b[len(b)-len("07:00"):]
+		if num2(tz) >= 24 || num2(tz[3:]) >= 60 {
+			return time.Time{}, fmt.Errorf("parsing time %q: timezone offset out of range", s)
+		}
+	}
+	return t, nil
 }
 
 func BuiltinFormatRFC3339(env *lisp.LEnv, args *lisp.LVal) *lisp.LVal {
